@@ -210,7 +210,10 @@ def write_rules(ctx, facts, rep):
         k = norm(ex.operand(fl["keys"], (bi, si)))
         b = norm(ex.operand(fl["buffer"], (bi, si)))
         w = norm(ex.operand(fl["writer"], (bi, si)))
-        good = ".encrypt_with" in tokens(k) and any(x[0] == "call" and x[1].endswith("mem::replace") for x in walk(w))
+        # the buffer starts EMPTY for every entry: a fresh Vec (a recycled buffer still holds the previous entry's ciphertext, which
+        # would be encrypted and emitted again in front of this entry's header)
+        fresh = b[0] == "call" and re.search(r"Vec::<T(, A)?>::(new|with_capacity)$|vec::from_elem$", b[1]) is not None and (not b[1].endswith("from_elem") or (len(b[2]) > 1 and b[2][1][0] == "const" and b[2][1][2] == 0))
+        good = ".encrypt_with" in tokens(k) and any(x[0] == "call" and x[1].endswith("mem::replace") for x in walk(w)) and fresh
         wa = calls_matching(se, r"io::Write::write_all$")
         good = good and len(wa) == 1 and norm(ex.operand(wa[0][1]["args"][1], (wa[0][0], None)))[0] == "repeat" and str(norm(ex.operand(wa[0][1]["args"][1], (wa[0][0], None)))[2]).startswith("12")
         # stored into inner only after the header was buffered
